@@ -2,6 +2,8 @@ import math
 import re
 import typing
 from collections import deque
+from collections.abc import Iterable
+from collections.abc import Set as AbstractSet
 from decimal import Decimal
 from enum import Enum, EnumMeta
 from functools import partial
@@ -1767,6 +1769,13 @@ class Rule(metaclass=LogicalType):
         context.raise_error()
         # raise error if collected
         # and leave the error the upper layer to collect
+        if cls.__args_parser__ and cls.__abstract__ and isinstance(value, list) \
+                and not isinstance(value, cls.__origin__):
+            # the list of parsed elements does not satisfy the abstract type itself (Iterator[T] / AbstractSet[T])
+            if issubclass(cls.__origin__, Iterator):
+                value = iter(value)
+            elif issubclass(cls.__origin__, AbstractSet):
+                value = set(value)
         return cls.post_validate(value, context)
 
     @classmethod
@@ -1907,6 +1916,9 @@ class Rule(metaclass=LogicalType):
             return cls._parse_seq_args
         elif cls.__origin__ == type:
             return cls._parse_type_arg
+        elif cls.__abstract__ and issubclass(cls.__origin__, Iterable):
+            # abstract containers (Sequence[T] / Iterable[T] / Collection[T] ...) parse their elements like a list
+            return cls._parse_seq_args
         return None
 
     @classmethod
